@@ -15,12 +15,17 @@ ARM_SEM = """match sem_inner(%s, vm_of(*old(self))) { Some(m2) => res is Some &&
 ARM_REQ = [lambda: C("pc", "1 <= old(self).pc <= 0x8000_0000_0000", note="A-PHYS: program counter below 2^47 (a program has fewer than 2^47 instructions)")]
 ARM_HINT = """proof { let m0 = vm_of(*old(self)); match sem_inner(%s, m0) { Some(m2) => { assert(self.stack@ =~= m2.stack); assert(self.heap@ =~= m2.heap); assert(self.loop_state@ =~= m2.loops); } None => {} } }"""
 STD_ARMS = ("PushI", "PushB", "LoadImm", "VRef", "SigEOk", "Hash", "Eql", "Bez", "Bnz", "Jmp", "Load", "BLength", "VLength")   # instructions the standard signature covenants (and typical hash/time locks) are made of
+COST_ARMS = ("Hash", "SigEOk", "Exp")
 def arm(variant, opexpr, closures=(), rewrites=(), covered=True, loops=(), injects=()):
     ens = [C("frame", "final(self).instrs == old(self).instrs", "C10")]
     if covered and not closures:
         injects = list(injects) + [Inject("before_tail", ARM_HINT % opexpr)]
     if covered:
         ens.insert(0, C("sem", ARM_SEM % opexpr, "C10", "C11", *(("C04",) if variant in STD_ARMS else ())))
+    if variant in COST_ARMS:   # the operand-length / bit-budget guards of these instructions are what bounds the work ONE instruction does by what its weight pays for (seed C11g)
+        for cl in closures:
+            for c in cl.ensures:
+                c.props = tuple(c.props) + ("C11",)
     if variant in STD_ARMS:
         for cl in closures:
             for c in cl.ensures:
